@@ -327,6 +327,9 @@ func c10one(g *rng, big bool, reput bool) c10seq {
 		default:
 			s.PLen = 1 + g.intn(cfg.Threshold)
 		}
+		if big && g.intn(4) != 0 { // most objects of a 128 KiB-threshold history stay small (evaluation cost)
+			s.PLen = 1 + g.intn(2000)
+		}
 		if s.PLen < 0 {
 			s.PLen = 1
 		}
@@ -374,9 +377,9 @@ func c10one(g *rng, big bool, reput bool) c10seq {
 			r.get(g.intn(6), a, content[a])
 		}
 	}
-	nops := 14 + g.intn(10)
+	nops := 10 + g.intn(8)
 	if big {
-		nops = 8
+		nops = 6
 	}
 	hot := distinct(8) // a dense sub-universe so that puts, deletes and reads collide
 	pick := func() int {
@@ -507,7 +510,7 @@ func c10(args []string) {
 		emit(map[string]any{"raw": len(o.raw), "canon_eq_raw": bytes.Equal(o.raw, o.canon), "z": len(o.z)})
 		return
 	}
-	n, nbig, nre := 100, 3, 10
+	n, nbig, nre := 60, 1, 6
 	if thorough() {
 		n, nbig, nre = 1200, 24, 100
 	}
